@@ -43,6 +43,16 @@ def run_case(case, rec, cid):
         z = rnd.choice([(0, 0), (1, 0), (-3, -30), (5, 45), (-11, 0)])
         probes.append(("member", p.to_time_zone(TimeZone(hours=z[0], minutes=z[1]))))
         probes.append(("member", rnd.choice([p.to_week_date, p.to_ordinal_date, p.to_calendar_date])()))
+        kw = dict(year=p.year, hour_of_day=int(p.hour_of_day), minute_of_hour=int(p.minute_of_hour), second_of_minute=int(p.second_of_minute))
+        if p.get_is_calendar_date():
+            kw.update(month_of_year=p.month_of_year, day_of_month=p.day_of_month)
+        elif p.get_is_ordinal_date():
+            kw.update(day_of_year=p.day_of_year)
+        else:
+            kw.update(week_of_year=p.week_of_year, day_of_week=p.day_of_week)
+        zo = rnd.choice([(1, 0), (-1, 0), (0, 30), (5, 45)])
+        from harness.common import TimePoint as _TP
+        probes.append(("near", _TP(time_zone_hour=p.time_zone.hours + zo[0], time_zone_minute=(abs(p.time_zone.minutes) + zo[1]) % 60 * (1 if p.time_zone.hours + zo[0] >= 0 else -1), **kw)))
         probes.append(("near", p + one))
         probes.append(("near", p - one))
     # outside the series: only where the truth is known from the recorded points
